@@ -36,6 +36,9 @@ class Built:
         self.vspec_files = []
         self.skipped = []
         self.noterm = []
+        self.lemma_obls = {}
+        self.part = 'main'
+        self.zorro_gate = None
 
     def text(self):
         return '\n'.join(self.lines) + '\n'
@@ -55,12 +58,60 @@ class Built:
         return None
 
 
-def build(repo, verif, canary=False, only_files=None, degrade=(), extern=()):
+ZHEADER = '''#![allow(non_snake_case, unused_imports, unused_variables, unused_mut, dead_code, unused_parens, unused_braces)]
+use vstd::prelude::*;
+use core::ops::{Add, Mul};
+verus! {
+'''
+
+
+def zorro_gate(verif):
+    """do the constants declared in src/curve/zorro/* equal the ones the certificates in /verif were computed for?"""
+    import json
+    try:
+        c = json.load(open(os.path.join(verif, 'contracts', 'zorro_cert.json')))
+    except Exception:
+        return False
+    z = extract.ZORRO_CONSTS
+    return (z.get('fq_modulus') == c['p'] and z.get('fr_modulus') == c['r'] and z.get('coeff_a') == c['a'] and z.get('coeff_b') == c['b']
+            and z.get('g_generator_x') == c['gx'] and z.get('g_generator_y') == c['gy'])
+
+
+def _lemma_obligations(b):
+    """proof fns marked `// @obligation Cxx [gated]` in @spec items: their failures are violations of Cxx, not framework errors"""
+    import re
+    b.lemma_obls = {}
+    i = 0
+    while i < len(b.lines):
+        mm = re.match(r'\s*//\s*@obligation\s+(C\d+)(\s+gated)?\s*$', b.lines[i])
+        if mm and i + 1 < len(b.lines):
+            nm = re.search(r'proof fn\s+(\w+)', b.lines[i + 1])
+            if nm:
+                depth = 0
+                j = i + 1
+                seen = False
+                while j < len(b.lines):
+                    depth += b.lines[j].count('{') - b.lines[j].count('}')
+                    if '{' in b.lines[j]:
+                        seen = True
+                    if seen and depth == 0:
+                        break
+                    j += 1
+                b.lemma_obls[nm.group(1)] = {'props': [mm.group(1)], 'gated': bool(mm.group(2)), 'first': i + 2, 'last': j + 1, 'marker': i + 1}
+                i = j
+        i += 1
+
+
+def build(repo, verif, canary=False, only_files=None, degrade=(), extern=(), part='main'):
     b = Built()
+    b.part = part
     src, log = extract.extract_all(os.path.join(repo, 'src'))
     b.log = log
     items, fnspecs, blockitems = [], [], []
     vs = sorted(glob.glob(os.path.join(verif, 'contracts', '*.vspec')))
+    # contracts/9*.vspec belong to the separate zorro (C14) file: a failing `by(compute_only)` aborts Verus' front end,
+    # which must not take the other fifteen properties with it
+    vs = [p for p in vs if os.path.basename(p).startswith('9') == (part == 'zorro')]
     b.vspec_files = vs
     for p in vs:
         it, fs, bi = weave.parse_vspec(p)
@@ -68,7 +119,9 @@ def build(repo, verif, canary=False, only_files=None, degrade=(), extern=()):
         fnspecs += fs
         blockitems += bi
     b.fnspecs = fnspecs
-    known = set(extract.FILES)
+    files = extract.ZFILES if part == 'zorro' else extract.FILES
+    known = set(files)
+    b.zorro_gate = zorro_gate(verif) if part == 'zorro' else None
     for fs in fnspecs:
         if fs.file not in known:
             raise Undecided('%s:%d: unknown source file %s' % (fs.vfile, fs.vline, fs.file))
@@ -76,23 +129,36 @@ def build(repo, verif, canary=False, only_files=None, degrade=(), extern=()):
     def strip_trailing(t):
         return t[:-1] if t.endswith('\n') else t
 
-    b.add_text(strip_trailing(HEADER), 'prelude', 'header')
-    b.add_text(strip_trailing(VX_OPEN), 'prelude', 'header')
-    b.add_text(strip_trailing(open(os.path.join(verif, 'prelude', 'vx.rs')).read()), 'prelude', 'prelude/vx.rs')
-    b.add_text(strip_trailing(VX_CLOSE), 'prelude', 'header')
-    b.add_text(strip_trailing(VP_OPEN), 'prelude', 'header')
-    b.add_text(strip_trailing(open(os.path.join(verif, 'prelude', 'vp.rs')).read()), 'prelude', 'prelude/vp.rs')
-    b.add_text(strip_trailing(VP_CLOSE), 'prelude', 'header')
-    b.add_text(strip_trailing(open(os.path.join(verif, 'prelude', 'root.rs')).read()), 'prelude', 'prelude/root.rs')
-    b.prelude_files = ['prelude/vx.rs', 'prelude/vp.rs', 'prelude/root.rs']
-    for ln in extract.gen_codecs():
-        b.lines.append(ln)
-        b.origin.append(('prelude', 'generated-codec', 0, None))
+    if part == 'zorro':
+        b.add_text(strip_trailing(ZHEADER), 'prelude', 'header')
+        b.add_text(strip_trailing(open(os.path.join(verif, 'prelude', 'zorro.rs')).read()), 'prelude', 'prelude/zorro.rs')
+        b.prelude_files = ['prelude/zorro.rs']
+    else:
+        b.add_text(strip_trailing(HEADER), 'prelude', 'header')
+        b.add_text(strip_trailing(VX_OPEN), 'prelude', 'header')
+        b.add_text(strip_trailing(open(os.path.join(verif, 'prelude', 'vx.rs')).read()), 'prelude', 'prelude/vx.rs')
+        b.add_text(strip_trailing(VX_CLOSE), 'prelude', 'header')
+        b.add_text(strip_trailing(VP_OPEN), 'prelude', 'header')
+        b.add_text(strip_trailing(open(os.path.join(verif, 'prelude', 'vp.rs')).read()), 'prelude', 'prelude/vp.rs')
+        b.add_text(strip_trailing(VP_CLOSE), 'prelude', 'header')
+        b.add_text(strip_trailing(open(os.path.join(verif, 'prelude', 'root.rs')).read()), 'prelude', 'prelude/root.rs')
+        b.prelude_files = ['prelude/vx.rs', 'prelude/vp.rs', 'prelude/root.rs']
+        for ln in extract.gen_codecs():
+            b.lines.append(ln)
+            b.origin.append(('prelude', 'generated-codec', 0, None))
     for (buf, vfile, vline) in items:
         for i, ln in enumerate(buf):
             b.lines.append(ln)
             b.origin.append(('contract', vfile, vline + i, None))
-    for f in extract.FILES:
+    _lemma_obligations(b)
+    if part == 'zorro' and not b.zorro_gate:
+        # the certificates do not cover the declared constants: leave the gated lemmas out (they are undecided), so that
+        # the ungated necessary conditions are still checked
+        for nm, lo in b.lemma_obls.items():
+            if lo['gated']:
+                for k in range(lo['marker'] - 1, lo['last']):
+                    b.lines[k] = '// (gated lemma %s left out: constants differ from the certified ones)' % nm if k == lo['marker'] - 1 else ''
+    for f in files:
         if only_files is not None and f not in only_files:
             continue
         w = weave.weave_file(f, src[f], fnspecs, blockitems, canary=canary, degrade=degrade, extern=extern, linemap=extract.LINEMAPS.get(f))
